@@ -398,7 +398,7 @@ func (cs *Contracts) LoadFile(path string, pkgPath string, external bool) error 
 				if err != nil {
 					return errf("%v", err)
 				}
-				cur.GhostUps = append(cur.GhostUps, &GhostUpdate{OnCall: strings.TrimSpace(rest[:i]), Text: rest, After: true, Assume: true, E: e})
+				cur.GhostUps = append(cur.GhostUps, &GhostUpdate{OnCall: strings.TrimSuffix(strings.TrimSpace(rest[:i]), "?"), Text: rest, After: true, Assume: true, Optional: true, E: e})
 			case "callsite":
 				// callsite <callee>: <expr>   (arguments of the call are arg0, arg1, ...)
 				i := strings.Index(rest, ":")
